@@ -624,6 +624,16 @@ type String struct {
 }
 
 func (s String) JSON(w io.Writer) error {
+	if len(s.Value) > 256*ObjectSize { //nolint:mnd // what MustBeOk doesn't look at.
+		// fmt builds the quoted string in one piece: up to 4 bytes for each byte that is escaped.
+		escaped := 0
+		for i := 0; i < len(s.Value); i++ {
+			if c := s.Value[i]; c < ' ' || c >= 0x7f || c == '"' || c == '\\' {
+				escaped++
+			}
+		}
+		MustBeOk((len(s.Value) + 3*escaped) / ObjectSize)
+	}
 	_, err := fmt.Fprintf(w, "%q", s.Value)
 	return err
 }
